@@ -215,10 +215,9 @@ def enter (P : Prog) (ee : EE) : Nat → Stmt → Env → St → Run × St
       match n with
       | none => (.stuck .raised, s.setStuck .raised)
       | some n =>
-        if n ≤ 0 then (.fin, s)
-        else if n.den != 1 then (.stuck .raised, s.setStuck .raised)   -- fractional limits: outside the model
+        if n < 1 then (.fin, s)           -- `int(limit)` is 0 or negative: no task at all
         else
-          let cnt := n.num.toNat
+          let cnt := n.floor.toNat        -- a fractional limit counts as its integral part
           let (rs, s) := enterCalls P ee f (List.replicate cnt c) env false
                             (fun k => (var, k) :: env.binds) 0 s.pend.length true s
           if rs.all Run.isFin then (.fin, s) else (.par rs, s)
